@@ -1,7 +1,7 @@
 package main
 
 // data-race runs of engine "conc": the same stress in a child process built with -race.
-//   race <what> <seed> <n>    what = atom-ops | atom-print | future-deref | future-flags | future-done-window | future-cancel-window
+//   race <what> <seed> <n>    what = atom-ops | atom-print | future-deref | future-flags | future-done-window | future-cancel-window | future-ignored-cancel
 // The child is this harness rebuilt with `go build -race` (CGO needed); it runs the generated cases and
 // its race reports (stderr) / violation markers (observation file) become this case's verdict.
 
@@ -19,8 +19,8 @@ import (
 	"time"
 )
 
-var raceWhats = map[string]string{"atom-ops": "a", "atom-print": "a", "future-deref": "f", "future-flags": "f", "future-done-window": "f", "future-cancel-window": "f"}
-var raceOrder = []string{"atom-ops", "atom-print", "future-deref", "future-flags", "future-done-window", "future-cancel-window"}
+var raceWhats = map[string]string{"atom-ops": "a", "atom-print": "a", "future-deref": "f", "future-flags": "f", "future-done-window": "f", "future-cancel-window": "f", "future-ignored-cancel": "f"}
+var raceOrder = []string{"atom-ops", "atom-print", "future-deref", "future-flags", "future-done-window", "future-cancel-window", "future-ignored-cancel"}
 
 var (
 	raceOnce sync.Once
@@ -75,6 +75,12 @@ func raceCases(what string, r *rng, n int) []string {
 		cs = append(cs, fmt.Sprintf("wit future-done-after-deref %d", iters))
 	case "future-cancel-window":
 		cs = append(cs, fmt.Sprintf("wit future-cancel-after-delivery %d", iters))
+	case "future-ignored-cancel":
+		// a running future is cancelled, its body does not notice and completes: the body's final flag update and the
+		// cancel's are two writers of the same flags (the witnesses orchestrate exactly that; race reports are kept)
+		for i := 0; i < 3; i++ {
+			cs = append(cs, "wit readers-agree-across-cancel 1", "wit cancelled-stays-cancelled 1")
+		}
 	}
 	return cs
 }
